@@ -74,6 +74,16 @@ CLAIMS = {
   'design_ref': 'DESIGN.md section 4 / C04',
   'note': 'Trusted: file-system assumptions (A-fs), receive_data contract (C02), C03 state methods, C01 uint64 layout. NOT decided: byte identity of the pair of clients over a faulty transport for all cut points and segmentations (two-party), dishonest senders beyond not-COMPLETE, eventual completion. One defect found and fixed (8f2fc77).',
  },
+ 'C10': {
+  'text': 'Proof of exit-path contracts. set_state writes state and _is_closing before its first yield (atomic prefix); connect() of peer and server connections is executed for every outcome of open_connection INCLUDING cancellation at the await: the reported sequence is monotone (only the server may go CLOSED -> CONNECTING) and every exit leaves the connection CONNECTED or CLOSED-and-unregistered; disconnect() from every state and for every outcome of wait_closed (returns, raises, times out, cancelled) reports CLOSING and CLOSED exactly once, unregisters, cancels queued sends, and a second or concurrent call reports nothing; accept() never reports anything after the initialisation handler closed the connection; after CLOSING/CLOSED nothing is sent and a send without a socket raises; a failed send closes; CLOSED removes exactly that connection from the registry (idempotently) and on_state_changed emits exactly one event after the registry handler. The order of notifications across accept / failure / cancellation paths is what the suite never asserts.',
+  'design_ref': 'DESIGN.md section 4 / C10',
+  'note': 'Trusted: abstract asyncio model (open_connection / wait_closed / drain outcomes), cooperative scheduling. Not decided: registry exactness "at every quiescent moment" as a whole-history statement. Two defects found and fixed (dbfb4d8, 50d716e).',
+ },
+ 'C11': {
+  'text': 'Proof of exit-path contracts asserted at return, at every escaping exception and at the CancelledError successor of every await: _make_indirect_connection (pierced, CannotConnect, timeout, server send failure, cancelled at the send, cancelled at the wait) leaves no pending waiter for the ticket or the notice and returns the pierced connection or raises PeerConnectionError; _make_direct_connection (address lookup or given address, connect failure, PeerInit send failure, cancellation at each of its yield points) either returns a CONNECTED, registered, finalised connection whose first message is PeerInit(me, typ, ticket), or leaves its connection CLOSED and unregistered, and registers before its first yield; fallback and race modes are executed for all outcome combinations and orders of the two sub-attempts: result, loser disconnected, slow loser cancelled AND awaited, PeerConnectionError iff both fail, cancellation of the request cancels both; select_port is its 8-row table; a connect-back request is answered by PeerPierceFirewall or by CannotConnect to the server; a pierce with a known ticket completes that future once, an unknown one closes only that connection.',
+  'design_ref': 'DESIGN.md section 4 / C11',
+  'note': 'Trusted: abstract asyncio model (asyncio.wait outcomes supplied per case), C10 contracts of connect/disconnect/send. Not decided: that an outcome exists whenever a path can work (environment liveness). Three defects found and fixed (345327d, 85b8972, bf89bd7).',
+ },
 }
 
 NA_DEFAULT = 'check not built yet (work in progress; see DESIGN.md section 4 for the planned contracts)'
